@@ -1625,8 +1625,12 @@ func zipAllInnerSubscriptions[T any](outerCtx context.Context, sources []Observa
 		// free memory
 		mu.Lock()
 
-		completed = nil
-		values = nil
+		// Keep the slices: a source that is still emitting on another goroutine may
+		// reach onUpdate after the teardown and indexes them under the same lock.
+		for i := range values {
+			completed[i] = true
+			values[i] = nil
+		}
 
 		mu.Unlock()
 	}
